@@ -560,7 +560,7 @@ class PyFlow:
                 continue
             # a while loop whose test is decided outright at every iteration (a descent through a type
             # chain under a scenario that fixes the classes) is executed iteration by iteration
-            if isinstance(st, ast.While) and not st.orelse and self.decide is not None:
+            if isinstance(st, ast.While) and not st.orelse:
                 s_ = q.clone()
                 done_ = None
                 for _it in range(8):
